@@ -11,6 +11,7 @@ package main
 import (
 	"fmt"
 	"strings"
+	"time"
 )
 
 type strPart struct {
@@ -225,6 +226,17 @@ func (m *Machine) strEq(x, y value) *Term {
 			// decidable only when the literal cannot start such a rendering
 			if lit, op, ok := litVsOpaque(pa, pb); ok {
 				if !canStart(op.kind, lit[0]) {
+					return tFalse
+				}
+				// a time rendering against the literal rest of the other
+				// string, both the last part of their strings: equal iff the
+				// instant is the one the literal denotes (Format is injective
+				// on instants at the layout's resolution)
+				if strings.HasPrefix(op.kind, "time:") && len(a) == 1 && len(b) == 1 {
+					layout := strings.TrimPrefix(op.kind, "time:")
+					if tt, err := time.Parse(layout, lit); err == nil && tt.UTC().Format(layout) == lit {
+						return st.And(res, st.Eq(op.args[0], BV(uint64(tt.UnixNano()), 64)))
+					}
 					return tFalse
 				}
 			}
